@@ -408,6 +408,16 @@ def check(model, rep, tier):
   rep.check(o, 'FINALIZE', '%s:function:writes-isolated' % fin.site,
             'writes inside a nested function must not count as writes of the '
             'enclosing scope', {'counterexample': cex}, line=fin.node.lineno)
+  for setname in ('bound', 'globals', 'nonlocals'):
+    o, cex = implies(after(setname) & ~non_isolated & has_parent, atom('P.' + setname))
+    rep.check(o, 'FINALIZE', '%s:function:%s-isolated' % (fin.site, setname),
+              'what a nested function binds or declares global / nonlocal is its '
+              'own business: it must not enter the %s set of the enclosing '
+              'scope (the enclosing function\'s own local of that name would be '
+              'treated as declared there)' % setname, {'counterexample': cex},
+              line=fin.node.lineno,
+              witness='def outer(): v = 0; def inner(): nonlocal v; v += 1 -- v is '
+              'a plain local of outer')
   fv = sc.methods.get('free_vars')
   al = setalg.single_assignment_aliases(fv.node)
 
